@@ -4,10 +4,99 @@
    AutoDetachObserver wrapper), tied to reactivex/subject/replaysubject.py and
    reactivex/observer/scheduledobserver.py by the K1 correspondence of
    harness/props/C22.py. *)
-From RxVerif Require Import Base.Prelude Ops.Machine Subjects.Subject Subjects.Replay
-  Subjects.SubjectFacts Subjects.ReplayFacts.
+From RxVerif Require Import Base.Prelude Ops.Machine Subjects.Subject Subjects.Family Subjects.Replay
+  Subjects.ReplaySpec Subjects.SubjectFacts Subjects.ReplayFacts Subjects.ReplayTreeFacts.
 
-(* ---- arbitrary call trees, every buffer size, every window, every fuel ---- *)
+(* ---- the main statement, for ARBITRARY call trees (observers that subscribe,
+        unsubscribe, emit, dispose from inside their callbacks, also while other
+        observers still have notifications queued), every buffer size (None, 0,
+        1, ...), every window, every amount of fuel ----
+
+   [xview b w o false rg_init calls] is what observer o is entitled to, computed
+   from the sequence of calls alone (Subjects/ReplaySpec.v): nothing before its
+   subscribe call; at that call the RETAINED values -- [retained]: the last
+   buffer_size values whose age at subscription is <= window -- in order, then
+   the terminal notification if the subject had ended (only DisposedException
+   after dispose()); afterwards the notification of every emission that takes
+   effect, in call order.
+
+   What o has received at any moment is a PREFIX of it: the replay comes first
+   and is exactly the retained values in order, then the terminal, then the
+   later notifications -- nothing duplicated, nothing reordered, nothing invented. *)
+Theorem C22_received_is_prefix_of_replay_then_later :
+  forall (A : Type) (react : nat -> nat -> list (@rop A)) (bs w : option Z) (top : list (@rop A))
+         (fuel o : nat),
+    let c := rrun react fuel (rinit_cfg bs w top) in
+    prefix (rview o (rlog_of c)) (xview (bufsize_of bs) w o false rg_init (ops_of (rlog_of c))).
+Proof. exact (@replay_prefix). Qed.
+Print Assumptions C22_received_is_prefix_of_replay_then_later.
+
+(* Nothing is lost: as long as the observer's AutoDetachObserver is not stopped
+   (it has neither unsubscribed nor received a terminal notification), what it
+   has received ++ what was handed to its wrapper but is not processed yet ++ what
+   is still queued in its ScheduledObserver  IS  its whole entitlement -- on every
+   call tree, at every moment.  (What remains between this and "it receives every
+   later notification" is that the scheduler runs the queue: no lost wake-up of
+   ScheduledObserver.ensure_active/run; that part is checked by the oracle of
+   harness/props/C22.py on every generated run, not proved.) *)
+Theorem C22_nothing_lost :
+  forall (A : Type) (react : nat -> nat -> list (@rop A)) (bs w : option Z) (top : list (@rop A))
+         (fuel o : nat) (os : @rostate A),
+    let c := rrun react fuel (rinit_cfg bs w top) in
+    rc_obs c o = Some os -> ra_stopped os = false ->
+    rview o (rlog_of c) ++ inflight o (rc_k c) ++ so_queue (r_so os)
+    = xview (bufsize_of bs) w o false rg_init (ops_of (rlog_of c)).
+Proof. exact (@replay_nothing_lost). Qed.
+Print Assumptions C22_nothing_lost.
+
+Theorem C22_live_observer_stays_registered :
+  forall (A : Type) (react : nat -> nat -> list (@rop A)) (bs w : option Z) (top : list (@rop A))
+         (fuel o : nat) (os : @rostate A),
+    let c := rrun react fuel (rinit_cfg bs w top) in
+    rc_obs c o = Some os -> ra_stopped os = false ->
+    rg_live (rg_run rg_init (ops_of (rlog_of c))) = true ->
+    In o (r_observers (rc_st c)) /\ so_stopped (r_so os) = false.
+Proof. exact (@replay_live_registered). Qed.
+Print Assumptions C22_live_observer_stays_registered.
+
+(* ---- the retention policy: the code keeps a queue that it trims (by count,
+        then by age) at every on_next, subscribe and terminal.  [qinv] ties that
+        queue to the complete history [all] of accepted (time, value) pairs; it
+        holds initially, is preserved by every action of the code, and implies
+        that trimming at any later time yields exactly [retained]. ---- *)
+Theorem C22_policy_init :
+  forall (A : Type) (b : Z) (w : option Z) (clock : Z), @qinv A b w clock [] [].
+Proof. exact (@qinv_init). Qed.
+Print Assumptions C22_policy_init.
+
+Theorem C22_policy_on_next :
+  forall (A : Type) (b : Z) (w : option Z) (clock : Z) (q all : list (Z * A)) (v : A),
+    qinv b w clock q all -> qinv b w clock (otrim b w clock (q ++ [(clock, v)])) (all ++ [(clock, v)]).
+Proof. exact (fun A b w clock q all v H => qinv_trim b w clock _ _ (qinv_append b w clock q all v H)). Qed.
+Print Assumptions C22_policy_on_next.
+
+Theorem C22_policy_trim :
+  forall (A : Type) (b : Z) (w : option Z) (clock : Z) (q all : list (Z * A)),
+    qinv b w clock q all -> qinv b w clock (otrim b w clock q) all.
+Proof. exact (@qinv_trim). Qed.
+Print Assumptions C22_policy_trim.
+
+Theorem C22_policy_clock_advances :
+  forall (A : Type) (b : Z) (w : option Z) (clock clock' : Z) (q all : list (Z * A)),
+    qinv b w clock q all -> clock <= clock' -> qinv b w clock' q all.
+Proof. exact (@qinv_advance). Qed.
+Print Assumptions C22_policy_clock_advances.
+
+(* what a subscriber arriving at time [now] is handed: the last b values of the
+   whole history whose age now - t is <= w  (age == window is retained) *)
+Theorem C22_policy_replay_is_retained :
+  forall (A : Type) (b : Z) (w : option Z) (clock : Z) (q all : list (Z * A)) (now : Z),
+    qinv b w clock q all -> clock <= now ->
+    otrim b w now q = filter (fun x => negb (too_old now w (fst x))) (skipn (length all - Z.to_nat b) all).
+Proof. exact (@qinv_replay). Qed.
+Print Assumptions C22_policy_replay_is_retained.
+
+(* ---- further facts on arbitrary call trees ---- *)
 
 (* each observer's received sequence obeys the grammar *)
 Theorem C22_views_wellformed :
@@ -56,3 +145,11 @@ Example C22_witness_reentrant :
   = ([REOp (RSub 0%nat); REOp (RSub 1%nat); REOp (RNext 5); REGot 0%nat (Next 5); REOp (RNext 6);
       REGot 1%nat (Next 5); REGot 0%nat (Next 6); REGot 1%nat (Next 6)], true).
 Proof. vm_compute. reflexivity. Qed.
+
+(* the entitlement of the boundary witness, computed by the specification alone:
+   subscriber 0 (t=3): values of t=1 (age 2 = window) ; subscriber 1 (t=4): nothing retained *)
+Example C22_witness_spec :
+  let calls := [RNext 0; RAdvance 1; RNext 1; RNext 2; RAdvance 2; RSub 0%nat; RAdvance 1; RSub 1%nat; RNext 3] in
+  xview 2 (Some 2) 0%nat false rg_init calls = [Next 1; Next 2; Next 3] /\
+  xview 2 (Some 2) 1%nat false rg_init calls = [Next 3].
+Proof. vm_compute. split; reflexivity. Qed.
